@@ -516,6 +516,22 @@ def obs09 (inp : Input) (srcSlots destSlots masks fmasks : List String) : List (
              ("reset:" ++ m, showReset c ((execFromP inp p t N .dirty).show sl) ((execFromP inp p t N .nil).show sl))])
         else [])
 
+/-- C05, partially nil chains: the same pairs observed with each embedded pointer nil in turn (the rest
+    populated) — the value arrives iff the real path (Go's promotion rule: shallowest wins) is intact -/
+def obsPart (inp : Input) (srcSlots destSlots masks fmasks : List String) : List (String × String) :=
+  if !modelCompiles inp || inp.srcNew || inp.destNew then [] else
+  let p := plan inp
+  let t := tables inp p
+  (if toGen inp then masks.map (fun m => ("toN:" ++ m, (execToP inp p t (nilsOf m srcSlots)).show (leavesOf inp.dest))) else []) ++
+  (if fromGen inp then fmasks.map (fun m => ("fromN:" ++ m, (execFromP inp p t (nilsOf m destSlots) .clean).show (leavesOf inp.src))) else [])
+
+def specPart (inp : Input) (srcSlots destSlots masks fmasks : List String) : List (String × String) :=
+  if inp.srcNew || inp.destNew then [] else
+  let p := plan inp
+  let t := tables inp p
+  (if toGen inp then masks.map (fun m => ("toN:" ++ m, (Outcome.value (idealTo inp p t (nilsOf m srcSlots))).show (leavesOf inp.dest))) else []) ++
+  (if fromGen inp then fmasks.map (fun m => ("fromN:" ++ m, (Outcome.value (idealFrom inp p t (nilsOf m destSlots))).show (leavesOf inp.src))) else [])
+
 def spec09 (inp : Input) (srcSlots destSlots masks fmasks : List String) : List (String × String) :=
   let p := plan inp
   let t := tables inp p
